@@ -19,11 +19,13 @@ TYPES = {
         "nodes": ("[Node!]!", ""), "mat": ("[[Int!]]", ""), "ints": ("[Int!]", ""), "str": ("String!", ""),
         "any": ("Any", "(i: In, l: [Int], r: Int! = 2, j: Any, c: Color = RED, ll: [[Int!]])"), "opt": ("Int", "(v: Int)"), "col": ("Color", ""),
         "flt": ("Float", ""), "ident": ("ID", ""), "named": ("Named", ""),
-        "req": ("Int!", "(r: Int! = 2, i: In)"), "reqa": ("A!", "(r: Int! = 2)")}),
+        "req": ("Int!", "(r: Int! = 2, i: In)"), "reqa": ("A!", "(r: Int! = 2)"),
+        "anyreq": ("Any!", ""), "anys": ("[Any!]", "")}),
     "Mutation": ("object", [], {"m1": ("Int", "(x: Int)"), "m2": ("A", ""), "m3": ("Int!", ""), "m4": ("[Int]", "")}),
     "A": ("object", ["Node", "Named"], {
         "id": ("ID!", ""), "name": ("String", ""), "n": ("Int!", ""), "b": ("B", ""), "bs": ("[B!]", ""),
-        "m": ("[[Int!]]", ""), "u": ("U", ""), "e": ("Color!", ""), "any": ("Any", "(i: In! = {x: 5}, s: String)")}),
+        "m": ("[[Int!]]", ""), "u": ("U", ""), "e": ("Color!", ""), "any": ("Any", "(i: In! = {x: 5}, s: String)"),
+        "stamp": ("Any!", "")}),
     "B": ("object", ["Node"], {"id": ("ID!", ""), "name": ("String", ""), "a": ("A!", ""), "w": ("Float", "")}),
     "C": ("object", [], {"c": ("Int", ""), "name": ("String", "")}),
     "Node": ("interface", [], {"id": ("ID!", ""), "name": ("String", "")}),
@@ -192,6 +194,11 @@ def parse_sites(types, ids, doc, root):
 DOCS = [
     # (document, [variables JSON], root type)
     ("{ str }", ["{}"]),
+    # non-null custom scalar positions: a null there is a field error that nulls the parent (sync and async alike)
+    ("{ anyreq }", ["{}"]),
+    ("{ a { stamp n } str }", ["{}"]),
+    ("{ anys ints }", ["{}"]),
+    ("{ an { stamp } }", ["{}"]),
     ("{ a { n } }", ["{}"]),
     ("{ an { n } str }", ["{}"]),
     ("{ a { n e } col }", ["{}"]),
